@@ -617,11 +617,12 @@ Definition conv_v1_comment_frame (t : tag) : option frame :=
             end
   end.
 
-(* str(frame) *)
+(*  if v2id in id3 and id3[v2id].text: text = id3[v2id].text[0]...   else: text = b""
+    (an empty text list counts as an absent frame) *)
 Definition conv_first_text (o : option frame) : result text :=
   match o with
   | None => Ok []
-  | Some f => match conv_texts_of f with v :: _ => Ok v | [] => Raise EIndex end   (* text[0] *)
+  | Some f => match conv_texts_of f with v :: _ => Ok v | [] => Ok [] end
   end.
 
 Fixpoint conv_index_of (x : text) (l : list text) (i : Z) : option Z :=
@@ -637,11 +638,11 @@ Definition conv_make_id3v1 (G : list text) (t : tag) : result (list Z) :=
               | Some f => match conv_texts_of f with v :: _ => v | [] => [] end
               | None => []
               end in
-  (*  try: track = bchr(+id3["TRCK"])   except ValueError: track = b"\x00"                       *)
+  (*  try: track = bchr(+id3["TRCK"])   except (ValueError, IndexError): track = b"\x00"           *)
   rbind (match conv_get s_TRCK t with
          | None => Ok 0
          | Some f => match conv_texts_of f with
-                     | [] => Raise EIndex
+                     | [] => Ok 0
                      | v :: _ => match conv_py_int (hd [] (split_on 47 v)) with
                                  | Some n => Ok (if (0 <=? n) && (n <? 256) then n else 0)
                                  | None => Ok 0
